@@ -181,8 +181,13 @@ def run(ctx):
             if not d or "result" not in d:
                 # an error answer is an acceptable way not to acknowledge an unsupported version
                 is_err = bool(d and "error" in d)
-                if req in supported or not is_err:
+                if (isinstance(req, str) and req in supported) or not is_err:
                     ctx.violation("no_initialize_result", f"initialize {req!r} answered {d!r}", case)
+                elif d["error"].get("code") == -32603:
+                    # "internal error" is what the dispatcher makes of an exception escaping the initialize handler: the
+                    # request was not refused, the handler crashed on it
+                    ctx.violation("initialize_handler_crashed", f"initialize requesting {req!r} was answered with the internal-error "
+                                  f"code: {d['error']!r} (neither a supported version nor a refusal)", case)
                 ctx.record(case, shape="error", cls="error_answer")
                 continue
             ans = d["result"].get("protocolVersion")
